@@ -68,24 +68,25 @@ theorem exp_imp_id_partial (strict : Bool) (id : Bytes) (c : Commit) (rev : Rev)
         by_cases h : c.committer = c.author
         · simp [h, hne, hfirst, exportIdent, encode, hfa]
         · simp [h, hne, hfirst, exportIdent, encode, hfa]
-      have hgpg : exportGpgsig (match c.gpgsig with
-            | some g => if g ≠ [] then some (⟨.se, g⟩ : PStr) else none
-            | none => none) = .ok c.gpgsig := by
+      have hgpg : exportGpgsig (importGpgsig c.gpgsig) = .ok c.gpgsig := by
         cases hg : c.gpgsig with
         | none => rfl
         | some g =>
           have : g ≠ [] := fun e => hsig (by rw [hg, e])
-          simp [this, exportGpgsig, encode, Except.map]
-      have hextra' : exportGitExtra (if ls ≠ [] then some (⟨.se, ls.flatten⟩ : PStr) else none) =
-          .ok c.extra := by
+          simp [this, importGpgsig, exportGpgsig, encode, Except.map]
+      have hextra' : exportGitExtra (importGitExtra ls) = .ok c.extra := by
+        unfold importGitExtra
         by_cases hnil : c.extra = []
         · simp [hls, hnil, exportGitExtra]
         · have : ls ≠ [] := by rw [hls]; simpa using hnil
           simp only [this, ne_eq, not_false_eq_true, if_true, exportGitExtra, encode]
           rw [hls]
           exact extra_roundtrip c.extra hextra
+      have hmm : (match (Option.map (fun m => (⟨k, m⟩ : PStr)) c.message) with
+          | some m => m
+          | none => ⟨k, []⟩) = ⟨k, m⟩ := by rw [hm]; rfl
       unfold exportCommit
-      simp only [importProps, hparents, hk, hcomm, hgpg, hextra', hm, Option.map_some,
+      simp only [importProps, hparents, hk, hcomm, hgpg, hextra', hmm, hm, Option.map_some,
         Option.isNone_some, mapM_encode_se, encode, if_true]
       rw [hauth _ rfl rfl]
       simp only [Bool.false_eq_true, if_false, Except.ok.injEq]
@@ -111,53 +112,6 @@ theorem revid_independent (s s' : Bool) (id : Bytes) (c c' : Commit) (rev rev' :
     (h : importCommit s id c = .ok rev) (h' : importCommit s' id c' = .ok rev') :
     rev.revisionId = rev'.revisionId := by
   rw [revid_stable s id c rev h, revid_stable s' id c' rev' h']
-
-theorem importExtra_unknown (strict : Bool) (k v : Bytes)
-    (hk : k ≠ bs "HG:rename-source" ∧ k ≠ bs "HG:extra") :
-    ∀ (extra : List (Bytes × Bytes)) (ls un : List Bytes), (k, v) ∈ extra →
-      importExtra strict extra = .ok (ls, un) → un ≠ []
-  | [], _, _, hm, _ => by simp at hm
-  | (k', v') :: rest, ls, un, hm, h => by
-    have step : ∀ {ls' un'}, importExtra strict rest = .ok (ls', un') → (k, v) ∈ rest → un' ≠ [] :=
-      fun hr hmem => importExtra_unknown strict k v hk rest _ _ hmem hr
-    simp only [List.mem_cons, Prod.mk.injEq] at hm
-    unfold importExtra at h
-    by_cases h1 : k' = bs "HG:rename-source"
-    · have hmem : (k, v) ∈ rest := by
-        rcases hm with ⟨e, _⟩ | hm
-        · exact absurd (e.trans h1) hk.1
-        · exact hm
-      simp only [h1, if_true] at h
-      cases hr : importExtra strict rest with
-      | error e => simp [hr, bind, Except.bind] at h
-      | ok p =>
-        obtain ⟨ls', un'⟩ := p
-        simp only [hr, bind, Except.bind, pure, Except.pure, Except.ok.injEq, Prod.mk.injEq] at h
-        rw [← h.2]; exact step hr hmem
-    · by_cases h2 : k' = bs "HG:extra"
-      · have hmem : (k, v) ∈ rest := by
-          rcases hm with ⟨e, _⟩ | hm
-          · exact absurd (e.trans h2) hk.2
-          · exact hm
-        simp only [h1, h2, if_false, if_true] at h
-        split at h
-        · simp at h
-        · split at h
-          · simp at h
-          · cases hr : importExtra strict rest with
-            | error e => simp [hr, bind, Except.bind] at h
-            | ok p =>
-              obtain ⟨ls', un'⟩ := p
-              simp only [hr, bind, Except.bind, pure, Except.pure, Except.ok.injEq,
-                Prod.mk.injEq] at h
-              rw [← h.2]; exact step hr hmem
-      · simp only [h1, h2, if_false] at h
-        cases hr : importExtra strict rest with
-        | error e => simp [hr, bind, Except.bind] at h
-        | ok p =>
-          obtain ⟨ls', un'⟩ := p
-          simp only [hr, bind, Except.bind, pure, Except.pure, Except.ok.injEq, Prod.mk.injEq] at h
-          rw [← h.2]; simp
 
 /-- strict import refuses a commit with an extra header it does not know -/
 theorem imp_rejects_unknown_extra (id : Bytes) (c : Commit) (k v : Bytes)
@@ -249,10 +203,20 @@ theorem encoding_false_witness (strict : Bool) (id : Bytes) (c : Commit)
     | ok d => exact ⟨_, rfl⟩
     | error e =>
       obtain ⟨d, hl⟩ := decodeUsing_latin1_ok c
-      exact ⟨_, by simp [hl, Except.map]⟩
+      exact ⟨(d, some (bs "latin1")), by simp [hl, Except.map]⟩
   obtain ⟨⟨⟨cm, au, msg⟩, impl⟩, hd⟩ := hd
   have hxx : importExtra strict c.extra = .ok ([], []) := by rw [hx]; rfl
-  refine ⟨_, by unfold importCommit; simp only [hd, hxx]; simp, ?_⟩
+  have himp : importCommit strict id c = .ok
+      { revisionId := foreignToBzr id, committer := cm,
+        message := (match msg with
+          | some m => m
+          | none => ⟨cm.codec, []⟩),
+        timestamp := c.commitTime, timezone := c.commitTz,
+        parents := c.parents.map foreignToBzr, props := importProps c impl au msg [] } := by
+    unfold importCommit
+    simp only [hd, hxx]
+    simp
+  refine ⟨_, himp, ?_⟩
   unfold exportCommit
   simp only [exportParents_map c.parents hpar, importProps, he, encName]
   have : resolve (bs "false") = none := by decide
